@@ -219,7 +219,8 @@ func ruleSkiplistShape(r *Report) {
 func ruleHeapShape(r *Report) {
 	p := r.P
 	const rh = "heap-shape"
-	r.Rule(rh, 5, "merge heap: less-than is 'comparator < 0'; Next returns the root's key/value/input identity read before the refill, drops an input exactly on exhaustion, reports exhaustion when empty; init admits exactly the inputs whose first fill succeeded")
+	r.Rule(rh, 6, "merge heap: less-than is 'comparator < 0'; Next returns the root's key/value/input identity read before the refill, drops an input exactly on exhaustion, reports exhaustion when empty; init admits exactly the inputs whose first fill succeeded")
+	ruleQueueFailureIsFinal(r, rh)
 	if fn := r.NeedFunc(rh, "pq.PriorityQueue.lessThan"); fn != nil {
 		key := rh + "/pq.PriorityQueue.lessThan"
 		ok := false
